@@ -107,6 +107,14 @@ def run(ctx, broken):
                    "in which at least one thread was parked mid-operation. %d observations in total." % steps) + bcommon.LAYOUT_RULE + bcommon.COLUMNS_RULE + " %d probe cases." % pn
     res["samples"] = [{"history": r[0][:300], "implementation": ";".join(r[2])[:300]} for r in recs[:3]]
     res["extra"] = {"observations": steps, "layout_probe_cases": pn}
+    # a publication that is not release / acquire lets a lookup return an item that is not completely written (under
+    # the language memory model; the histories above interleave at the granularity of the atomic operations and cannot
+    # show it): the ordering requirement of C09 on the translated table of atomic sites counts for this property too
+    import c09
+    sub = {"evaluations": 0, "distinct_nontrivial": 0, "rule": "", "samples": [], "disagreements": [], "failures": [], "extra": {}}
+    c09.ordering_oracle(ctx, [], sub)
+    res["failures"] += [dict(f, cls_origin="C09 orderings") for f in sub["failures"] if f.get("class") == "ordering"]
+    res["rule"] += " Memory orderings of the publication protocol: the requirement of C09 (entries / active loads >= Acquire, stores >= Release, CAS (Release, Acquire)) evaluated on the translated table of atomic sites."
     return res
 
 
